@@ -506,6 +506,13 @@ def catalogue(rs):
         A[0, 1] = float(rs.choice([3.0, -4.0, 5.0]))     # x'Ax = |x|^2 + c x0 x1 is negative at x0 = -sign(c) x1: not PSD
         s[j] = A
         out.append(("cov:not-symmetric-indefinite", True, loc, s, pvals))
+        # not symmetric, although its symmetric part is positive definite (a Cholesky factor handed over by mistake, ...): a covariance
+        # matrix is symmetric, so this does not describe a mixture either — and no sample could have the covariance that was passed
+        s = scale.copy()
+        A = 2.0 * np.eye(d)
+        A[0, 1], A[1, 0] = float(rs.choice([0.9, -0.8, 0.5])), 0.1
+        s[j] = A
+        out.append(("cov:not-symmetric-psd-part", True, loc, s, pvals))
         s = scale.copy()
         s[j] = 0.0
         out.append(("cov:all-zero", None, loc, s, pvals))
